@@ -75,8 +75,9 @@ func unhxl(s string) []string {
 	return out
 }
 
-var reUnknown = regexp.MustCompile(`^unknown license '(.*)' at offset (\d+)$`)
-var reExpected = regexp.MustCompile(`^expected id at offset (\d+)$`)
+// tolerant of rewording: any message citing "offset N"; a quoted lexeme makes it an unknown-id error
+var reOffset = regexp.MustCompile(`(?i)offset[ :=]*(\d+)`)
+var reQuoted = regexp.MustCompile("['\"`]([^'\"`]*)['\"`]")
 
 // evalLine runs the implementation on one protocol line and returns the canonical answer.
 // Every call is wrapped in recover(): a panic is an answer ("PANIC"), never a crash of the driver.
@@ -135,10 +136,10 @@ func evalLine(line string) (out string) {
 		if err == nil {
 			return "R ok"
 		}
-		if m := reUnknown.FindStringSubmatch(err.Error()); m != nil {
-			return "R unk " + m[2] + " " + hx(m[1])
-		}
-		if m := reExpected.FindStringSubmatch(err.Error()); m != nil {
+		if m := reOffset.FindStringSubmatch(err.Error()); m != nil {
+			if q := reQuoted.FindStringSubmatch(err.Error()); q != nil {
+				return "R unk " + m[1] + " " + hx(q[1])
+			}
 			return "R eid " + m[1]
 		}
 		return "R other"
